@@ -47,7 +47,10 @@ theorem mSimple_tau (F : Compound) (n : Name) (hF : noSelC F = true) (s : Simple
       · have : (Simple.cls m = Simple.cls n) = False := by simp [e]
         simp [e, this]
     · simp [hm]
-  | attr a v => cases v <;> (simp only [mSimple, tau, tauL, addCls]; split <;> simp)
+  | attr a v =>
+    have hat : (tau (addCls F n) p).cur.el.attrs = p.cur.el.attrs := by
+      simp only [tau, tauL, addCls]; split <;> rfl
+    cases v <;> simp [mSimple, hat]
   | univ => simp [mSimple]
   | type a => simp only [mSimple, tau, tauL, addCls]; split <;> simp
   | id a => simp only [mSimple, tau, tauL, addCls]; split <;> simp
